@@ -2,7 +2,8 @@
 (* C20 - validation of vectors observed on the real pywbem.ValueMapping      *)
 (* against the requirement module ValueMap (verdicts) and against the        *)
 (* code-shaped machine ValueMapImplOps (impl drift only: the observation     *)
-(* equals neither the pinned tree's variant nor the repaired design).        *)
+(* equals neither the repaired design, nor the tree as it is, nor the pinned *)
+(* tree's variant).                                                          *)
 (* One trace = one vector = one event.                                       *)
 EXTENDS ValueMapImplOps, Json, IOUtils
 VARIABLES tid, l, verdict, ts, ti, drifted
@@ -10,6 +11,7 @@ VARIABLES tid, l, verdict, ts, ti, drifted
 DriftCmp(i, e) ==
   LET d1 == Drift(e, Fixed) IN
   IF d1 = {} THEN <<{}, i>>
+  ELSE IF Drift(e, AsIs) = {} THEN <<{}, i>>
   ELSE IF Drift(e, Legacy) = {} THEN <<{}, i>>
   ELSE <<d1, i>>
 
